@@ -123,6 +123,14 @@ def r17_3(ctx):
             first_is = bool(body_start) and body_start[0].id in ids
             ok = bool(sl) and ((r == (0, 0) and first_is and len(sl) == 1) or r == (1, 1) or
                                (first_is and r is not None and r[1] == 0))
+            # an `assert` is not executed under python -O: the acquire that does the work must not live inside one
+            in_assert = [n for n in sl if isinstance(n.ast, ast.Assert)]
+            ctx.ob('R17.3', '%s:reconciliation-does-not-depend-on-assert' % tag, not in_assert, fi,
+                   in_assert[0] if in_assert else recon[0],
+                   'the sleeper registration is taken off by a statement of its own (the assert only looks at the '
+                   'answer)' if not in_assert else
+                   '_sleeping_count.acquire(False) is the test of an assert: with -O it is never executed, every '
+                   'timed-out wait leaves a phantom sleeper and the next notify waits for ever for its acknowledgement')
         ctx.ob('R17.3', '%s:one-sleeper-per-timed-out-waiter' % tag, ok, fi, recon[0] if recon else None,
                'while woken_count.acquire(False): sleeping_count.acquire(False) exactly once')
         wake = [(n, c) for (n, c) in q.calls(fi, 'self._wait_semaphore.release')]
